@@ -79,6 +79,18 @@ def constant_fold_expr(expr: Expression, cur_mod_id: str) -> ConstantValue | Non
 def constant_fold_binary_op(
     op: str, left: ConstantValue, right: ConstantValue
 ) -> ConstantValue | None:
+    try:
+        return constant_fold_binary_op_unchecked(op, left, right)
+    except OverflowError:
+        # For example, an int operand too large to convert to float (10**400 * 1.5)
+        # or an int true division with a result too large for a float (10**400 / 3).
+        # These raise at runtime as well, so there is no constant value.
+        return None
+
+
+def constant_fold_binary_op_unchecked(
+    op: str, left: ConstantValue, right: ConstantValue
+) -> ConstantValue | None:
     if isinstance(left, int) and isinstance(right, int):
         return constant_fold_binary_int_op(op, left, right)
 
